@@ -412,6 +412,17 @@ def digest(project, with_reports=True, outdir=None):
     res["project"] = {"start": _iso(project["start"]), "end": _iso(project["end"]), "nsc": nsc,
                       "timezone": str(project["timezone"]), "resolution": project["scheduleGranularity"],
                       "scen": [[s.fullId, bool(s.get("active"))] for s in project.scenarios]}
+    # every plain project attribute except the wall-clock one (`now` is an environment input)
+    from datetime import datetime as _dt
+    for k, v in sorted(project.attributes.items()):
+        if k == "now":
+            continue
+        if isinstance(v, (str, int, float, bool, type(None))):
+            res["project"]["attr:" + k] = _num(v)
+        elif isinstance(v, _dt):
+            res["project"]["attr:" + k] = _iso(v)
+        elif isinstance(v, (list, tuple, dict)):
+            res["project"]["attr:" + k] = len(v)
     for sc in range(nsc):
         for t in project.tasks:
             res["tasks"][f"{sc}:{t.fullId}"] = [_iso(t.get("start", sc)), _iso(t.get("end", sc)), bool(t.get("scheduled", sc)),
@@ -734,6 +745,7 @@ def probe(sess, text, again, outdir, newparser=True, keep_struct=True):
             finally:
                 Session.uninstall(saved)
             out["modeRun"] = sess.trace.take()
+            out["stderrRun"] = err.getvalue()
             out["newMsgs"] = _msg_ids(msgs0)
             out["feat"] = features(proj, out["modeRun"], sess.marks, text)
             d = digest(proj, True, outdir)
@@ -795,6 +807,7 @@ def hidden_probe(req):
     try:
         with contextlib.redirect_stderr(err):
             proj = ProjectFileParser().parse(req["probe"])
+            out["stderrRun"] = err.getvalue()
             ds = [digest(proj, True, req.get("outdir"))]
             for _ in range(req.get("again", 0)):
                 proj.schedule()
